@@ -199,6 +199,15 @@ def structHandler : Handler
     let g ← decodeCfg cfg
     let d ← decodeDecl decl
     some (v.and (structC03 g d c03))
+  | [cfg, bcfg, decl, expect, ddl, ddlFlip, load, dump, hash, extra, c03, .list [.atom "snake", has, sn]] => do
+    let v0 ← structHandler10 [cfg, bcfg, decl, expect, ddl, ddlFlip, load, dump, hash, extra]
+    let g ← decodeCfg cfg
+    let d ← decodeDecl decl
+    let v := v0.and (structC03 g d c03)
+    let has ← has.bool?; let sn ← sn.str?; let ddlS ← ddl.str?
+    -- C10, tag spelling: the twin declaration with every tag key in snake_case gives the same DDL text
+    let r : Check := check (ddlS == sn) s!"the declaration with snake_case tag keys gives another DDL: {SExp.quote sn}"
+    some (if has then v.and (judge "C10" (Scope.c06 g d (allowUnsupported := true) (ddlOnly := true)) r) else v)
   | args => structHandler10 args
 
 end Sqlize.Driver
